@@ -150,6 +150,7 @@ func newServer(es graphql.ExecutableSchema, c Config, cache *Cache) *server {
 		}
 		h.SetQueryCache(cache)
 		h.SetDisableSuggestion(c.Sugg)
+		h.SetParserTokenLimit(TokenLimit)
 		// Server.ServeHTTP recovers a panic of the transport and presents it
 		// through the recover function: user code, so the panic is observable.
 		h.SetRecoverFunc(func(ctx context.Context, err any) error {
@@ -185,6 +186,7 @@ func newServer(es graphql.ExecutableSchema, c Config, cache *Cache) *server {
 	}
 	ex.SetQueryCache(cache)
 	ex.SetDisableSuggestion(c.Sugg)
+	ex.SetParserTokenLimit(TokenLimit)
 	s.ex = ex
 	return s
 }
